@@ -63,6 +63,10 @@ class TextGen:
     def char(self) -> str:
         rng = self.rng
         k = rng.random()
+        if k < 0.04:
+            # a lone backslash (invalid in pest), the quote itself, a double quote, an escaped backslash
+            q, bs = chr(39), chr(92)
+            return rng.choice([q + bs + q, q + q + q, q + chr(34) + q, q + bs + bs + q])
         if k < 0.5:
             return "'" + rng.choice("abzAZ09 #\"{~é中") + "'"
         if k < 0.75:
@@ -156,6 +160,12 @@ def mutate(rng: random.Random, text: str) -> str:
     alphabet = "ab _=~|*+?!&(){}[]\"'^#.,-0123\\/\n@$xuPOEK"
     if not text:
         return rng.choice(alphabet)
+    # malformed escapes: damage a digit of a \\x / \\u{...} escape when there is one
+    esc = [m.start() for m in __import__("re").finditer(r"\\[xu]", text)]
+    if esc and rng.random() < 0.25:
+        j = rng.choice(esc) + rng.randint(2, 4)
+        if j < len(text):
+            return text[:j] + rng.choice("-+ _gG{}'\"") + text[j + 1:]
     i = rng.randrange(len(text))
     op = rng.randrange(6)
     if op == 0:
@@ -362,6 +372,8 @@ def chunk(args):
     for t in texts:
         try:
             vs = judge_text(t, want10, want11)
+        except RecursionError:
+            vs = []    # nesting beyond the harness's own recursion budget: no verdict on structure
         except Exception as e:  # noqa: BLE001
             import traceback
             vs = [("HARNESS", "crash", traceback.format_exc()[-800:])]
@@ -389,6 +401,15 @@ def texts_for(tier: str, seed: int, prop: str) -> tuple[list[str], dict]:
             "a = { 'z'..'a' }", "a = { b } /// doc", "//! doc only", "a = { " + "(" * 200 + "b" + ")" * 200 + " }",
             "a = { b ~ }", "a = { | }", "a = { undefined_rule }", "a = { PUSH( }", "a = { PUSH_LITERAL(b) }",
             "a = { \"\\q\" }", "a = { '\\q'..'a' }", "a = { 'ab'..'c' }", "a = { ''..'c' }", "a = _ { b }"]
+    edge += ['a = { (!b ~ ANY)* }\nb = { b | "x" }\n', 'a = @{ (!b ~ ANY)* }\nb = { c | "x" }\nc = { b }\n',
+             'a = { "x"' + "?" * 5000 + " }", 'a = { "x"{' + "1" * 5000 + "} }", "a = { PEEK[" + "1" * 5000 + "..] }",
+             'a = { "x"{,' + "9" * 4400 + "} }", "a = { " + "!" * 4000 + '"x" }', "a = { " + "&" * 4000 + '"x" }',
+             'a = { "\\u{-041}" }', 'a = { "\\x-1" }', 'a = { "\\u{+41}" }', 'a = { "\\u{ 41}" }', 'a = { "\\u{4_1}" }',
+             'a = { "\\x 1" }', 'a = { ^"\\u{-e9}" }']
+    q, bs = chr(39), chr(92)
+    edge += ["a = { " + q + bs + q + ".." + q + "a" + q + " }", "a = { " + q + "a" + q + ".." + q + bs + q + " }",
+             "a = { " + q * 3 + ".." + q + "a" + q + " }", "a = { " + q + bs + q + q + ".." + q + "a" + q + " }",
+             "a = { " + chr(34) + bs + chr(34) + " }", "a = { " + q + bs + bs + q + ".." + q + "z" + q + " }"]
     if tier == "thorough":
         edge.append("a = { " + "(" * 3000 + "b" + ")" * 3000 + " }")
         # every truncation of the bundled grammars
